@@ -28,8 +28,10 @@ THEOREMS = [
     "C16.bulk_ops_exact",
     "C16.bulk_params_declared",
     "C16.bulk_roundtrip",
-    "C16.bulk_appended_batch_lost",
-    "C16.gen_routes_undocumented_column_raises",
+    "C16.bulk_ops_exact_any_layout",
+    "C16.pinned_appended_batch_lost",
+    "C16.gen_routes_pk_total",
+    "C16.pinned_undocumented_column_raises",
     "C16.payload_via_parse_samples",
 ]
 
@@ -213,7 +215,7 @@ def gen_model(r, used: set, undocumented_ok=True) -> dict:
     names = r.sample(COLNAMES, ncols)
     pk_kind = r.choice(["explicit-first", "explicit-later", "inferred", "inferred"]) if ncols > 1 else r.choice(["explicit-first", "inferred"])
     pk_idx = {"explicit-first": 0, "explicit-later": r.randrange(1, ncols) if ncols > 1 else 0}.get(pk_kind)
-    undocumented = undocumented_ok and r.random() < 0.12
+    undocumented = undocumented_ok and r.random() < 0.25
     cols = []
     for i, c in enumerate(names):
         doc = r.choice(COLDOCS)
@@ -490,11 +492,6 @@ def entries_of(case, res, which=None):
     return out
 
 
-def visible(res) -> set:
-    """model indices whose routes were written by the batch that created their routes file"""
-    return {f[0]["model"] for f in res["files"] if f and f[0]["app"] != "other_app"}
-
-
 def check_case(chk, case, res, model_bulk, model_emit, stats):
     replay = {"fn": "case", "case": case}
     models = case["models"]
@@ -527,7 +524,6 @@ def check_case(chk, case, res, model_bulk, model_emit, stats):
     # ---- openapi_bulk --------------------------------------------------------------------------------------
     if "bulk" in res:
         doc = dec(res["bulk"])
-        vis = visible(res)
         for sig, text in oracle(doc, ents):
             sig = dict(sig, region="bulk")
             if sig["kind"] == "dangling-ref":
@@ -537,9 +533,8 @@ def check_case(chk, case, res, model_bulk, model_emit, stats):
                 sig["key_eq_name"] = bool(mm) and title_key(mm[0]["table"]) == name
                 sig.pop("ref")
             if sig["kind"] == "ops-not-exact":
-                missing = set(map(tuple, sig["missing"]))
-                lost = {e["i"] for e in ents if missing & set(requested_ops([e]))}
-                sig["cause"] = "appended-batch" if (not sig["extra"] and lost and not (lost & vis)) else "other"
+                sig["layout"] = case["layout"]
+                sig["what"] = "+".join(x for x in ("missing" if sig["missing"] else "", "extra" if sig["extra"] else "") if x)
                 sig.pop("missing"), sig.pop("extra")
             chk.failure(sig, "openapi_bulk (%s routes file): %s" % (case["layout"], text), replay)
         # "routes generated for a model, fed back, describe that same model": compare with emit on the same tuples
@@ -668,14 +663,13 @@ def run(chk: core.Check) -> int:
         "hand-written model lean/CddVerif/Model/OpenApi.lean of components_paths_from_name_model_route_id_crud / emit.openapi / extract_entities / parse.openapi / gen_routes' primary-key choice / openapi_bulk, tied to the code by exact comparison of the produced dicts",
         "yaml.safe_load / json.loads are not modelled: the loader's result for the rewritten text is captured from the real run and handed to the model; `templateLoaded` states it for the three route templates and is exercised on every generated name",
         "the docstring parser and `ast` between a route template and `bottle()` are not modelled: `templatePayload kind name` is compared with bottle(ast.parse(template)) on every generated name",
-        "the route functions openapi_bulk sees in a routes file are given by `visibleRoutes` (first upsert batch only: later batches are glued to the previous line); tied by comparing the whole bulk document",
+        "the route functions openapi_bulk sees in a routes file are given by `visibleRoutes` (all upsert batches, in order; the text of the routes file, `to_code` and `ast.parse` are not modelled); tied by comparing the whole bulk document for separate and shared routes files",
         "sqlalchemy parse → json_schema (the model schema) is input data here (C05/C06); the theorems assume schemas without `$ref`, the oracle checks it on every real document",
         "`resolves` in the theorems is an RFC 6901 pointer walk without ~0/~1 unescaping and without list indices (names are identifiers); the oracle on real documents uses the full walk",
     ]
     chk.assumptions += [
         "theorem hypotheses = the statement's domain: entity names contain no '/' (and for the explicit bulk document no '`', non-empty), routes no '{' / ':', ids no '}' / '/', crud ⊆ 'CRD', the paths route and route/{id} of different models pairwise distinct, model schemas without $ref",
         "openapi_bulk closure additionally assumes title(tablename.replace('_tbl','',1)) == class name for every model (false in general: known finding C16-bulk-key-title)",
-        "openapi_bulk operations/round trip assume one upsert batch per routes file (otherwise known finding C16-upsert-appended-batch)",
     ]
     rng = chk.rng
     have_driver = core.DRIVER.exists()
